@@ -5,6 +5,7 @@ from pyvc.models_wire import WirePlugin
 from pyvc.models_msg import MsgPlugin
 from contracts import varint as _v, single as _s, frame as _f, msg as _m
 
+DEPENDS = ['varint', 'single', 'frame', 'msg']
 SPEC_MODULES = ("wire", "msg", "decode")
 PLUGINS = _m.PLUGINS
 
@@ -77,7 +78,7 @@ CONTRACTS = [
                        ("C08-known-fields-leave-unknown-bytes-alone", f"implies({KNOWN}, UNKF() == UNK_H)"),
                        ("C17-touches-only-its-field-and-group",
                         f"implies({KNOWN}, forall(0, NF, lambda jq: implies(jq != {I} and not (INGROUP({I}) and F_group(jq) == F_group({I})),"
-                        " RAWV(jq) == SELECT(RAW_H, jq) or (is_placeholder(SELECT(RAW_H, jq)) and RAWV(jq) == DEFOBJ(jq)))))"),
+                        " same(RAWV(jq), SELECT(RAW_H, jq)) or (is_placeholder(SELECT(RAW_H, jq)) and same(RAWV(jq), DEFOBJ(jq))))))"),
                        ("C02-singular-last-wins",
                         f"implies({KNOWN} and F_dkind({I}) != 'list' and F_dkind({I}) != 'dict', same(RAWV({I}), {DEC1}))"),
                        ("C07-oneof-member-becomes-selected",
